@@ -597,7 +597,7 @@ func (fr *Frame) execConvert(ins *ssa.Convert, c *blockCtx) {
 		// []byte -> string, or int -> string
 		if x.Sort == SSlice {
 			g.declSort("Bytes")
-			g.sc.DeclareOnce("bytesOf", "(declare-fun bytesOf ((Array Ref Int) Slice) Bytes)")
+			g.declBytesOf()
 			g.sc.DeclareOnce("strOfBytes", "(declare-fun strOfBytes (Bytes) Str)\n(declare-fun bytesOfStr (Str) Bytes)\n(assert (forall ((b Bytes)) (! (= (bytesOfStr (strOfBytes b)) b) :pattern ((strOfBytes b)))))\n(assert (forall ((s Str)) (! (= (strOfBytes (bytesOfStr s)) s) :pattern ((bytesOfStr s)))))")
 			h := g.heap(c.st, g.heapKeyT(types.Typ[types.Uint8]), SInt)
 			t := fr.define(ins, Term{app("strOfBytes", app("bytesOf", h.S, x.S)), SStr})
@@ -613,7 +613,7 @@ func (fr *Frame) execConvert(ins *ssa.Convert, c *blockCtx) {
 		// string -> []byte
 		if _, ok := to.(*types.Slice); ok {
 			g.declSort("Bytes")
-			g.sc.DeclareOnce("bytesOf", "(declare-fun bytesOf ((Array Ref Int) Slice) Bytes)")
+			g.declBytesOf()
 			g.sc.DeclareOnce("strOfBytes", "(declare-fun strOfBytes (Bytes) Str)\n(declare-fun bytesOfStr (Str) Bytes)\n(assert (forall ((b Bytes)) (! (= (bytesOfStr (strOfBytes b)) b) :pattern ((strOfBytes b)))))\n(assert (forall ((s Str)) (! (= (strOfBytes (bytesOfStr s)) s) :pattern ((bytesOfStr s)))))")
 			obj := g.newObj()
 			t := fr.define(ins, Term{fmt.Sprintf("(mkSlice %s 0 (strlen %s) (strlen %s))", obj, x.S, x.S), SSlice})
@@ -761,7 +761,7 @@ func (fr *Frame) execSlice(ins *ssa.Slice, c *blockCtx) {
 					if ab := g.W.abstracts["bytesOf"+nt.Obj().Name()]; ab != nil && len(ab.Params) == 1 {
 						if pt := g.W.resolveType(ab.Pkg, ab.Params[0], g); pt.G != nil && types.Identical(pt.G, xt.Elem()) {
 							g.declSort("Bytes")
-							g.sc.DeclareOnce("bytesOf", "(declare-fun bytesOf ((Array Ref Int) Slice) Bytes)")
+							g.declBytesOf()
 							g.declareAbstract(ab)
 							whole := g.loadLeaf(c.st, x.S, xt.Elem())
 							sl := fmt.Sprintf("(mkSlice %s 0 %s %s)", x.S, n, n)
@@ -927,10 +927,23 @@ func (fr *Frame) execPanic(ins *ssa.Panic, c *blockCtx) {
 	g.oblige("safety", fr.oname("safety", fmt.Sprintf("panic@%d", fr.callOrd["panic"])), c.reach, allowed, "explicit panic", true)
 }
 
+// declBytesOf declares the abstract content function of byte slices; an empty slice has the empty content.
+func (g *Gen) declBytesOf() {
+	if g.sc.declared["bytesOf"] {
+		return
+	}
+	g.declSort("Bytes")
+	g.sc.DeclareOnce("bytesOf", "(declare-fun bytesOf ((Array Ref Int) Slice) Bytes)")
+	if be := g.W.abstracts["bempty"]; be != nil && len(be.Params) == 0 {
+		g.declareAbstract(be)
+		g.sc.Decl("(assert (forall ((h (Array Ref Int)) (s Slice)) (! (=> (= (slen s) 0) (= (bytesOf h s) bempty)) :pattern ((bytesOf h s)))))")
+	}
+}
+
 // bytesFrame: the abstract content bytes(s) of a byte slice is unchanged by writes outside its backing array.
 func (g *Gen) bytesFrame(newHeap, oldHeap, unaffected string) {
 	g.declSort("Bytes")
-	g.sc.DeclareOnce("bytesOf", "(declare-fun bytesOf ((Array Ref Int) Slice) Bytes)")
+	g.declBytesOf()
 	if newHeap == oldHeap {
 		return
 	}
